@@ -885,6 +885,12 @@ func (e *Env) call(x ECall) EVal {
 			return EVal{T: And(Neq(v.T, NilV), Eq(App("aid", SInt, App("aobj", SV, v.T)), IntLit(int64(u.fresh))))}
 		}
 		return EVal{T: And(Neq(v.T, NilV), Gt(App("aid", SInt, App("aobj", SV, v.T)), IntLit(int64(e.freshLo))))}
+	case "wrap_u32":
+		v := arg(0)
+		return EVal{T: wrapInt(types.Typ[types.Uint32], v.T)}
+	case "wrap_i32":
+		v := arg(0)
+		return EVal{T: wrapInt(types.Typ[types.Int32], v.T)}
 	case "byteat":
 		s, i := arg(0), arg(1)
 		return EVal{T: u.strAt(s.T, i.T)}
